@@ -158,6 +158,12 @@ pub fn mix_table(mix: &str) -> Vec<(&'static str, u32)> {
             ("t_iter_hash", 4), ("retain", 2), ("t_extract_if", 3), ("drain", 2), ("iter", 5), ("into_iter", 2),
             ("clear", 1), ("reserve", 2), ("shrink_to", 2), ("t_shrink_to_fit", 2), ("clone", 1), ("clone_from", 2),
         ],
+        "serde" => vec![
+            ("insert", 30), ("remove", 18), ("serde_roundtrip", 8), ("serde_de", 22), ("get", 4), ("clear", 1), ("shrink_to_fit", 1),
+        ],
+        "serdeset" => vec![
+            ("insert", 30), ("remove", 18), ("serde_roundtrip", 8), ("serde_de", 12), ("serde_de_in_place", 14), ("contains", 4), ("clear", 1),
+        ],
         "par" => vec![
             ("insert", 30), ("remove", 18), ("par_iter", 12), ("par_drain", 6), ("into_par_iter", 3), ("par_extend", 6), ("par_eq", 4),
             ("extend", 2), ("clone_from", 2), ("shrink_to_fit", 1),
@@ -277,6 +283,30 @@ impl OpGen {
                 ev.n = rng.random_range(0..3);
                 ev.j = if rng.random_range(0..2) == 0 { -1 } else { rng.random_range(0..6) };
             }
+            "serde_roundtrip" => {
+                ev.u = if self.nt > 1 { 3 - t } else { t };
+            }
+            "serde_de" | "serde_de_in_place" => {
+                let n = rng.random_range(0..14);
+                let setlike = self.table.iter().any(|x| x.0 == "serde_de_in_place");
+                for _ in 0..n {
+                    ev.ks.push(rng.random_range(0..self.nkeys) as i64);
+                    if !setlike {
+                        ev.ks.push(rng.random_range(1..4));
+                    }
+                }
+                // honest, lying and absent size hints
+                ev.n = match rng.random_range(0..8) {
+                    0 => -1,
+                    1 => -2,
+                    2 => -3,
+                    3 => 4096,
+                    4 => 5000,
+                    5 => 100000,
+                    _ => n as i64,
+                };
+                ev.j = if rng.random_range(0..3) == 0 { rng.random_range(0..(n + 1)) as i64 } else { -1 };
+            }
             "par_iter" | "par_drain" | "into_par_iter" => {
                 ev.n = if name == "par_iter" { rng.random_range(0..5) } else { rng.random_range(0..2) };
                 ev.j = [1i64, 2, 3, 8, 64][rng.random_range(0..5)];
@@ -360,7 +390,7 @@ where
     for<'a> K: From<&'a K::Q>,
 {
     let mut rng = SmallRng::seed_from_u64(seed ^ 0x9E37_79B9_7F4A_7C15);
-    let nt = sc.opt_u("nt", if sc.mix == "two" || sc.mix == "fault" || sc.mix == "par" { 2 } else { 1 }) as usize;
+    let nt = sc.opt_u("nt", if sc.mix == "two" || sc.mix == "fault" || sc.mix == "par" || sc.mix == "serde" { 2 } else { 1 }) as usize;
     env::reset_all();
     let p1 = make_plan(&sc.plan, sc.nkeys, &mut rng);
     let p2 = make_plan(sc.opt("plan2").unwrap_or(&sc.plan), sc.nkeys, &mut rng);
